@@ -99,5 +99,11 @@ def run(ctx) -> None:
     for prop in ("start", "end"):
         r = core.returns(m.func(f"Interval.{prop}"))
         ctx.ob("RANGE.accessors", f"Interval.{prop}", len(r) == 1 and nun(r[0].value) == f"self._{prop}", f"{[nun(x.value) for x in r]}", m.rel)
+    # each element is self.start.add/subtract(...): the month-end clamp of helpers.add_duration and what it relies on
+    from ..rules import addduration as AD
+    from . import C15
+    AD.month_clamp_order(ctx)
+    C15.clamp_dependencies(ctx)
     ctx.expect_min("RANGE", 10)
+    ctx.expect_min("ORDER.clamp", 5)
     _ = un
